@@ -8,6 +8,8 @@ mvars == <<vars, nid>>
 
 MCCids  == {<<"sha256", 1>>, <<"sha256", 2>>, <<"shake128", 1>>}   \* shake128: valid only under svc2
 MCCids2 == {<<"sha256", 1>>, <<"shake128", 1>>}
+\* with an ALIAS of sha256/1 (same multihash, CIDv1 dag-pb): requests for either, exchange answers with either
+MCCidsA == {<<"sha256", 1>>, <<"sha256pb", 1>>, <<"shake128", 1>>}
 KeySets == {S \in SUBSET Cids : S # {} /\ Cardinality(S) <= 2}
 ArgSets == {S \in SUBSET {b \in Blocks : b.ok} : S # {} /\ Cardinality(S) <= 2}
 
@@ -26,17 +28,19 @@ S_Preload     == UNCHANGED nid /\ \E b \in Blocks : Preload(b)
 S_BsGet       == UNCHANGED nid /\ \E id \in DOMAIN calls : \E c \in Cids : c \notin calls[id].seen /\ BsGet(id, c)
 S_BsDelete    == UNCHANGED nid /\ \E id \in DOMAIN calls : \E c \in Cids : BsDelete(id, c)
 S_AddPut      == UNCHANGED nid /\ \E id \in DOMAIN calls : \E S \in SUBSET calls[id].args : S # {} /\ AddPut(id, S)
+S_AddPutFail  == UNCHANGED nid /\ \E id \in DOMAIN calls : \E S \in SUBSET calls[id].args : S # {} /\ AddPutFail(id, S)
 S_ExAsk       == UNCHANGED nid /\ \E id \in DOMAIN calls : ExAsk(id, calls[id].miss)
 S_ExDeliver   == UNCHANGED nid /\ \E id \in DOMAIN calls : \E b \in Blocks : calls[id].ndl < MaxDl /\ ExDeliver(id, b)
 S_ExEnd       == UNCHANGED nid /\ \E id \in DOMAIN calls : \E e \in BOOLEAN : ExEnd(id, e)
 S_CachePut    == UNCHANGED nid /\ \E id \in DOMAIN calls : \E b \in Blocks : CachePut(id, b)
+S_CachePutFail == UNCHANGED nid /\ \E id \in DOMAIN calls : \E b \in Blocks : CachePutFail(id, b)
 S_DevCachePut == UNCHANGED nid /\ \E id \in DOMAIN calls : \E b \in Blocks : DevCachePut(id, b)
 S_Recv        == UNCHANGED nid /\ \E id \in DOMAIN calls : \E b \in Blocks : Recv(id, b)
 S_ReturnBlock == UNCHANGED nid /\ \E id \in DOMAIN calls : \E b \in Blocks : ReturnBlock(id, b)
 S_Closed      == UNCHANGED nid /\ \E id \in DOMAIN calls : Closed(id)
 S_ReturnOK    == UNCHANGED nid /\ \E id \in DOMAIN calls : ReturnOK(id)
 S_ReturnErr   == UNCHANGED nid /\ \E id \in DOMAIN calls : \E cl \in {"verifcid", "notfound"} : ReturnErr(id, cl)
-MCNext == \/ Start \/ S_Preload \/ S_BsGet \/ S_BsDelete \/ S_AddPut \/ S_ExAsk \/ S_ExDeliver \/ S_ExEnd
-          \/ S_CachePut \/ S_DevCachePut \/ S_Recv \/ S_ReturnBlock \/ S_Closed \/ S_ReturnOK \/ S_ReturnErr
+MCNext == \/ Start \/ S_Preload \/ S_BsGet \/ S_BsDelete \/ S_AddPut \/ S_AddPutFail \/ S_ExAsk \/ S_ExDeliver \/ S_ExEnd
+          \/ S_CachePut \/ S_CachePutFail \/ S_DevCachePut \/ S_Recv \/ S_ReturnBlock \/ S_Closed \/ S_ReturnOK \/ S_ReturnErr
 MCSpec == MCInit /\ [][MCNext]_mvars
 =============================================================================
